@@ -7,14 +7,14 @@ V = os.path.dirname(os.path.dirname(os.path.abspath(__file__)))
 
 # id -> (category, text, note, technique, design_ref)
 CLAIMED = {
-    "C01": ("exploration",
-            "Correspondence of the Lean L1 model of tape.rs/machine.rs with the real run_quick_machine (full result record and per-cycle tapes through the guarded hook) plus an L0 cell-by-cell oracle run on every answer. Proof level pending BB/Props/C01.",
-            "Trusted: Lean compiler for the driver, vlib orchestration, rustc; oracle budget 2e7 base steps.",
-            "Lean 4 model + differential correspondence + L0 oracle", "5/C01"),
-    "C12": ("exploration",
-            "Correspondence of the Lean model of tape.rs with the real Tape on exhaustive short and random long step sequences (all observers after every step), plus a cell-level replay oracle. Proof level pending BB/Props/C12.",
-            "Trusted: Lean compiler for the driver, vlib orchestration (incl. the cell-level replay), rustc.",
-            "Lean 4 model + differential correspondence + cell-level oracle", "5/C12"),
+    "C01": ("proof",
+            "Lean theorems (BB/Props/C01.lean): one compressed-tape step is k>=1 cell-by-cell steps ending in the unrolled new tape (step_refines), every cycle of run_quick_machine unrolls to the real configuration (every_cycle), and each field of the result record (steps, marks, undefined slot, spin-out, blank record, infrul => never halts, cycles) is the real machine's, for ALL programs and limits. The model is tied to the real code on every run by the correspondence check (full result record and per-cycle tapes through the guarded hook) and an L0 oracle judges the real answers.",
+            "Trusted: Lean kernel + propext/Classical.choice/Quot.sound; the hand-written model BB/Model/{Tape,Machine,Instrs}.lean to the extent the correspondence samples it; Lean compiler for the driver; vlib orchestration; rustc. u64 overflow is an explicit outcome of the model (theorems are stated for result != overflow).",
+            "Lean 4 proof (refinement to cell-level semantics) + differential correspondence + L0 oracle", "5/C01"),
+    "C12": ("proof",
+            "Lean theorems (BB/Props/C12.lean): canonical form is preserved by every step for every direction/colour/sweep flag, hence holds after every history from the blank tape; a canonical span is the run-length encoding of its cells, so equality of tapes is equality of cells; marks, blank, at_edge, counts, span_lens, blocks, signature and sig_compatible are characterised from the unrolled cells. Model tied to the real Tape by the correspondence check on exhaustive short and random long step sequences (all observers after every step), plus a cell-level replay oracle.",
+            "Trusted: Lean kernel + standard axioms; hand-written model BB/Model/Tape.lean to the extent the correspondence samples it; Lean compiler for the driver; vlib orchestration (incl. the cell-level replay); rustc.",
+            "Lean 4 proof (invariant by induction over histories) + differential correspondence", "5/C12"),
     "C13": ("exploration",
             "Correspondence of the Lean model of instrs.rs parsing/printing with the real tcompile/show_comp/read_*/show_* on every token and random tables, judged against the generator's own table; malformed stream compared code-vs-model. Proof level pending BB/Props/C13.",
             "Trusted: Lean compiler for the driver, vlib orchestration, rustc.",
